@@ -7,7 +7,8 @@
 //!   zdec b|c <n>   (hcobs_dec, right after `params`)  the canonical encoding of `n` zero bytes,
 //!                  built analytically (header bytes written at their offsets in a zero buffer):
 //!                  its first byte in one `decode` call, ALL the rest in one more call, then
-//!                  `finish`; ends the run.
+//!                  `finish`; ends the run.  `zdec b|c <n> <cut>`: the first `cut` bytes in the
+//!                  first call instead (call boundary before / inside / after a chosen header).
 //!
 //! Nothing here flattens or copies a piece: the input is a calloc-backed `vec![0u8; n]` (virtual
 //! memory until touched; the encoder only reads it, the decoder borrows it) and the outputs are
@@ -32,6 +33,9 @@ use std::panic::{catch_unwind, AssertUnwindSafe};
 use std::sync::atomic::{AtomicU64, Ordering};
 use std::sync::{Mutex, Once, OnceLock};
 use std::time::{Duration, Instant};
+
+/// Largest `n` of `zenc <m> <n> fe` (the model replays these on the actual bytes).
+pub const FE_MAX: usize = 300_000;
 
 /// Pieces above this size are "huge": no second encoding, no flattening, no byte-wise comparison.
 pub const SMALL_MAX: usize = 8 << 20;
@@ -157,16 +161,24 @@ impl<'a, S: std::ops::Deref<Target = [u8]>> Cursor<'a, S> {
         self.pos += 1;
         Some(b)
     }
-    /// Skips `n` bytes; `Err(offset)` = the stream ended early or holds a non-zero byte there.
-    fn skip_zeros(&mut self, mut n: usize) -> Result<(), usize> {
+    /// Skips `n` bytes; `Err(offset)` = the stream ended early or holds a non-zero byte there
+    /// (`fe_at`: the one stream offset where the byte must be FE instead of zero).
+    fn skip_zeros(&mut self, mut n: usize, fe_at: Option<usize>) -> Result<(), usize> {
         while n > 0 {
             if self.at_end() {
                 return Err(self.pos);
             }
             let s = &self.slices[self.idx][self.off..];
             let take = n.min(s.len());
-            if !all_zero(&s[..take]) {
-                return Err(self.pos + s[..take].iter().position(|&b| b != 0).unwrap_or(0));
+            let ok = match fe_at {
+                Some(e) if self.pos <= e && e < self.pos + take => {
+                    let k = e - self.pos;
+                    all_zero(&s[..k]) && s[k] == 0xFE && all_zero(&s[k + 1..take])
+                }
+                _ => all_zero(&s[..take]),
+            };
+            if !ok {
+                return Err(self.pos + s[..take].iter().enumerate().position(|(k, &b)| b != 0 && Some(self.pos + k) != fe_at).unwrap_or(0));
             }
             self.off += take;
             self.pos += take;
@@ -207,6 +219,11 @@ impl Walked {
 /// value of a two-byte header is `d0 + 253 * d1`, literal radix) and checks that every payload
 /// byte is zero.
 pub fn walk_encoding<S: std::ops::Deref<Target = [u8]>>(slices: &[S]) -> Walked {
+    walk_encoding_fe(slices, None)
+}
+
+/// The same for a payload that is zero except for one FE at stream offset `fe_at`.
+pub fn walk_encoding_fe<S: std::ops::Deref<Target = [u8]>>(slices: &[S], fe_at: Option<usize>) -> Walked {
     let size: usize = slices.iter().map(|s| s.len()).sum();
     let mut w = Walked { size, chunks: Vec::new(), hhash: FNV_OFFSET, trouble: None };
     let mut cur = Cursor::new(slices);
@@ -230,7 +247,7 @@ pub fn walk_encoding<S: std::ops::Deref<Target = [u8]>>(slices: &[S]) -> Walked 
             }
         };
         w.chunks.push(Chunk { off, hdr, size: n });
-        if let Err(at) = cur.skip_zeros(n) {
+        if let Err(at) = cur.skip_zeros(n, fe_at) {
             w.trouble = Some(format!(
                 "the chunk announced at offset {} ({} bytes) is cut short or holds a non-zero byte at offset {}",
                 off, n, at
@@ -336,11 +353,19 @@ fn size_class(n: usize) -> &'static str {
 // ---------------------------------------------------------------------------
 // zenc
 
-/// `zenc <m> <n>` on a fresh encoder.
-pub fn zenc(enc: RealEnc, l: Limits, bufs: &mut BufStore, m: &str, n: usize) -> StepOut {
+/// `zenc <m> <n>` on a fresh encoder.  `fe`: the last byte of the (full) first chunk is FE instead of
+/// zero (`zenc <m> <n> fe`, `n <= FE_MAX`): the chunking is that of `n` zeros, but the first size header
+/// of the second chunk directly follows an FE - a header whose first byte came out as FD would put a
+/// stuff sequence on the wire.
+pub fn zenc(enc: RealEnc, l: Limits, bufs: &mut BufStore, m: &str, n: usize, fe: bool) -> StepOut {
     let mut so = StepOut::default();
-    so.tags.push(format!("zenc_{}_{}", m, size_class(n)));
-    let data = bufs.keep(vec![0u8; n]);
+    so.tags.push(format!("zenc_{}_{}{}", m, size_class(n), if fe { "_fe" } else { "" }));
+    let fe_pos = if fe && n >= l.mi { Some(l.mi - 1) } else { None };
+    let mut bytes = vec![0u8; n];
+    if let Some(p) = fe_pos {
+        bytes[p] = 0xFE;
+    }
+    let data = bufs.keep(bytes);
     let what = format!("one {} call on a piece of {} zero bytes", if m == "b" { "encode" } else { "encode_copy" }, n);
     let expiry = vec![
         format!("C01 encoder did not return within its time budget from {}", what),
@@ -368,8 +393,9 @@ pub fn zenc(enc: RealEnc, l: Limits, bufs: &mut BufStore, m: &str, n: usize) -> 
     };
     let pending = iov.has_pending_backrefs();
     let total = iov.total_size();
+    // the FE sits one header byte after its place in the payload
     let walked = match iov.iovs() {
-        Ok(s) | Err(s) => walk_encoding(s),
+        Ok(s) | Err(s) => walk_encoding_fe(s, fe_pos.map(|p| p + 1)),
     };
     so.obs.push(format!("zenc {} pending={} spec=1", walked.summary(), pending as u8));
     if pending {
@@ -382,12 +408,19 @@ pub fn zenc(enc: RealEnc, l: Limits, bufs: &mut BufStore, m: &str, n: usize) -> 
     if n <= SMALL_MAX && !pending {
         // small enough to look at the bytes: they are the analytic wire, and they decode back
         let flat = iov.flatten().unwrap_or_else(|v| v);
-        if flat != zero_wire(l, n) {
+        let mut want = zero_wire(l, n);
+        if let Some(p) = fe_pos {
+            want[p + 1] = 0xFE;
+        }
+        if flat != want {
             so.violations.push(format!("C07 encoder: the encoding of {} zero bytes differs from the canonical one", n));
+        }
+        if let Some(i) = flat.windows(2).position(|w| w == [0xFE, 0xFD]) {
+            so.violations.push(format!("C02 stuff sequence FE FD at offset {} of the produced bytes ({} bytes, FE as last byte of the first chunk, zero otherwise)", i, n));
         }
         drop(iov);
         match super::real_decode(l, &flat, None) {
-            Ok(d) if d.len() == n && all_zero(&d) => {}
+            Ok(d) if d == data => {}
             Ok(_) => so.violations.push(format!("C01 round trip of {} zero bytes (one decode call) returned other bytes", n)),
             Err(e) => so.violations.push(format!("C01 round trip of {} zero bytes (one decode call) rejected: {}", n, e)),
         }
@@ -401,10 +434,17 @@ pub fn zenc(enc: RealEnc, l: Limits, bufs: &mut BufStore, m: &str, n: usize) -> 
 // zdec
 
 /// `zdec <m> <n>` on a fresh decoder.
-pub fn zdec(dec: RealDec, l: Limits, bufs: &mut BufStore, m: &str, n: usize) -> StepOut {
+///
+/// `cut` = how many bytes of the wire go into the first call (1 unless the op line says otherwise:
+/// `zdec <m> <n> <cut>` puts the call boundary before / inside / after a chosen size header).
+pub fn zdec(dec: RealDec, l: Limits, bufs: &mut BufStore, m: &str, n: usize, cut: usize) -> StepOut {
     let mut so = StepOut::default();
     so.tags.push(format!("zdec_{}_{}", m, size_class(n)));
+    if cut != 1 {
+        so.tags.push("zdec_cut_chosen".into());
+    }
     let wire = bufs.keep(zero_wire(l, n));
+    let cut = cut.min(wire.len());
     // the analytic wire is what the format says (and, when small, what the real encoder produces)
     let walked = walk_encoding(&[wire]);
     so.violations.extend(check_encoding(l, n, &walked, "analytic wire (harness)"));
@@ -417,10 +457,11 @@ pub fn zdec(dec: RealDec, l: Limits, bufs: &mut BufStore, m: &str, n: usize) -> 
     }
     let call = if m == "b" { "decode" } else { "decode_copy" };
     let what = format!(
-        "one {} call on a slice of {} bytes (a valid encoding of {} zero bytes minus its first byte, which was fed before)",
+        "one {} call on a slice of {} bytes (a valid encoding of {} zero bytes minus its first {} byte(s), which were fed before)",
         call,
-        wire.len() - 1,
-        n
+        wire.len() - cut,
+        n,
+        cut
     );
     let expiry = vec![
         format!("C07 decoder did not return within its time budget from {}", what),
@@ -430,8 +471,8 @@ pub fn zdec(dec: RealDec, l: Limits, bufs: &mut BufStore, m: &str, n: usize) -> 
     let mut dec = std::mem::ManuallyDrop::new(dec);
     let res = watched(expiry, || {
         catch_unwind(AssertUnwindSafe(move || {
-            dec.feed(m, &wire[..1])?;
-            dec.feed(m, &wire[1..])?;
+            dec.feed(m, &wire[..cut])?;
+            dec.feed(m, &wire[cut..])?;
             Ok::<_, FeedErr>(std::mem::ManuallyDrop::into_inner(dec).finish())
         }))
     });
